@@ -11,3 +11,26 @@ template <class C> struct Drop { C& c; std::size_t n;
   auto end() const { return std::end(c); } };
 template <class C> Drop<C> dropped(C& c, std::size_t n) { return Drop<C>{c, n}; }
 }
+// filter view (forward range, common): stand-in for `c | std::views::filter(pred)`; usable with std::ranges algorithms.
+#include <memory>
+namespace verif_ranges {
+template <class It, class Pred> struct FilterIt {
+  using iterator_concept = std::forward_iterator_tag; using iterator_category = std::forward_iterator_tag;
+  using value_type = typename std::iterator_traits<It>::value_type; using difference_type = std::ptrdiff_t;
+  using reference = typename std::iterator_traits<It>::reference; using pointer = typename std::iterator_traits<It>::pointer;
+  It cur{}, last{}; const Pred* pred{nullptr};
+  FilterIt() = default;
+  FilterIt(It c, It l, const Pred* p) : cur(c), last(l), pred(p) { skip(); }
+  void skip() { while (cur != last && !(*pred)(*cur)) ++cur; }
+  reference operator*() const { return *cur; }
+  pointer operator->() const { return std::addressof(*cur); }
+  FilterIt& operator++() { ++cur; skip(); return *this; }
+  FilterIt operator++(int) { FilterIt t = *this; ++*this; return t; }
+  friend bool operator==(const FilterIt& a, const FilterIt& b) { return a.cur == b.cur; }
+};
+template <class C, class Pred> struct Filter { C& c; Pred pred;
+  using iterator = FilterIt<decltype(std::begin(std::declval<C&>())), Pred>;
+  iterator begin() const { return iterator(std::begin(c), std::end(c), &pred); }
+  iterator end() const { return iterator(std::end(c), std::end(c), &pred); } };
+template <class C, class Pred> Filter<C, Pred> filtered(C& c, Pred pred) { return Filter<C, Pred>{c, std::move(pred)}; }
+}
